@@ -166,6 +166,8 @@ func fileBytes(f FileState, variant int) []byte {
 
 type sandbox struct {
 	root, base, cfg string
+	d               *store.Dir // histories: one library object for as long as the configuration stays the same
+	dDef            uint
 }
 
 func newSandbox(dir string, e *Edge, variant int) *sandbox {
@@ -242,8 +244,37 @@ func runEdgeIn(sb *sandbox, e *Edge, name string, badClass string, variant int, 
 	if carry { // the configured default may change between the steps of a history
 		must(os.WriteFile(sb.cfg, []byte(concrete.ConfigYAML(sb.base, e.Def, sets, setIDs)), 0600))
 	}
-	d, err := store.NewDirFromConfig(sb.cfg)
-	must(err)
+	// a long-lived user of the library (the agent) keeps ONE Dir object: within a history it is only re-created
+	// when the configuration changes, so whatever an implementation remembers inside it is carried along
+	var d *store.Dir
+	var err error
+	if carry && sb.d != nil && sb.dDef == e.Def {
+		d = sb.d
+	} else {
+		d, err = store.NewDirFromConfig(sb.cfg)
+		must(err)
+		if carry {
+			sb.d, sb.dDef = d, e.Def
+		}
+	}
+	if !carry { // single edges: the object has been used with every valid spelling before (read-only calls)
+		users := []string{}
+		for u := range e.Pre {
+			users = append(users, u)
+		}
+		sort.Strings(users)
+		for _, u := range users {
+			func() {
+				defer func() { recover() }()
+				d.Exists(u)
+				if badClass != "" {
+					if f := e.Pre[u]; f.Kind == "ok" {
+						d.Authenticate(u, pws[f.Pw])
+					}
+				}
+			}()
+		}
+	}
 	before := concrete.Snapshot(sb.root)
 	pw := pws[e.Pw]
 	tag := e.Op
@@ -450,6 +481,7 @@ func checkWritten(sb *sandbox, e *Edge, tag, u string, old []byte, t0, t1 int64,
 	}
 	if rec.Param != e.Def {
 		violate("C12", tag+":written-set", fmt.Sprintf("written set %d, default %d", rec.Param, e.Def), e, name)
+		violate("C14", tag+":written-set", fmt.Sprintf("written set %d, default %d", rec.Param, e.Def), e, name)
 		return
 	}
 	ps := sets[rec.Param]
